@@ -31,4 +31,6 @@ CASES = [
          old="        acc = func(acc, source)", new="        func(acc, source)")]),
     dict(expect="silent", desc="reactivex.amb: fold written without the helper", edits=[dict(file="reactivex/observable/amb.py",
          old="        acc = func(acc, source)", new="        acc = _.amb(acc)(source)")]),
+    dict(expect="fire", desc="mutant: amb's right error handler does not enter the race", names="G1-gating", edits=[dict(file=AMB,
+         old="        def on_error_right(err: Exception) -> None:\n            with left_source.lock:\n                choice_right()", new="        def on_error_right(err: Exception) -> None:\n            with left_source.lock:\n                pass")]),
 ]
